@@ -102,3 +102,17 @@ def register(R, tier="quick"):
                           "overlapping keyword, under a limit), collapse limit 1/2, filter/mask (incl. empty), every page of "
                           "pagelen 1..3, len(results) under limits; quick 600 corpora, thorough 12000",
                     note="real searcher vs list/set models; see bounded/results_bounded.py")
+
+
+    def ffn(tier_, seed):
+        out = run_native("fuzzy_bounded.py", [150 if tier_ == "quick" else 3000, seed])
+        for f in out.get("failures", []):
+            f["snippet"] = ("import runpy, sys\nsys.argv = ['fuzzy_bounded.py', '--corpus', %r]\n"
+                            "runpy.run_path(%r, run_name='__main__')\n"
+                            % (json.dumps(f.get("corpus")), os.path.join(ROOT, "bounded", "fuzzy_bounded.py")))
+        return out
+    R.bounded_check("fuzzy-bounded@C19", ["C19"], ffn,
+                    bound="distance functions: all 14641 ordered pairs of words of length <= 4 over {a,b,c}, limit in "
+                          "{None,1,2,3}; index level: 150 (thorough 3000) random vocabularies (4-14 words incl. multi-byte "
+                          "letters, 1-3 segments) x 5 probes x maxdist 1..2 x prefix 0..3: terms_within, FuzzyTerm, suggest",
+                    note="real code vs textbook OSA distance; see bounded/fuzzy_bounded.py")
